@@ -14,6 +14,7 @@ fn fmt_stub2(_a: core::fmt::Arguments<'_>) -> String {
 // @harness c13_read_validation
 // @props C13 C10
 // @tier quick
+// @cost 19
 // @timeout 900
 // @needs R0
 // @desc the complete argument validation of read_at (everything before its first await, lifted verbatim): for ALL offsets and lengths: offset >= virtual size => Err (Ok(len) on a backing device); len == 0 => Ok(0); unaligned length or offset => Err; a read crossing the end proceeds with the count clamped to (vsize-offset) rounded down to the block size; no arithmetic overflow or panic for any argument value
@@ -138,6 +139,7 @@ fn $name() {
 // @harness c01_read_split
 // @props C01 C13 C16
 // @tier quick
+// @cost 152
 // @timeout 1200
 // @needs RF
 // @desc the whole body of __read_at with its awaited callees shimmed (backend completes every request): a rejected request issues nothing; an accepted in-bounds request returns exactly the requested length and is cut into pieces that, in order, exactly partition [offset, offset+len), none crossing a cluster boundary, piece k carrying the L2 entry of the k-th guest cluster and the k-th consecutive sub-range of the caller's buffer; a request crossing the end of the image returns the clamped count and touches nothing beyond it
